@@ -396,6 +396,13 @@ func c16Exec(mpt *util.MerklePatriciaTrie, db2 util.NodeDB, f []string, post *fu
 		case "setver":
 			mpt.SetVersion(mpt.GetVersion())
 			return "ok"
+		case "dbversion":
+			// LevelNodeDB.GetDBVersion on the trie's store (never generated: probes MergeMPTChanges' unlocked
+			// `db.version = ...`, see notes/C16.md)
+			if l, ok := mpt.GetNodeDB().(*util.LevelNodeDB); ok {
+				return fmt.Sprintf("ok %d", l.GetDBVersion()&0)
+			}
+			return "ok -"
 		case "count":
 			return fmt.Sprintf("ok %d", mpt.GetChangeCount())
 		case "deletes":
@@ -932,7 +939,7 @@ func runC16(ops []string) (res CaseResult) {
 			if out == "ok" {
 				updatesOK++
 			}
-		case "save", "savec", "count", "missing", "setver":
+		case "save", "savec", "count", "missing", "setver", "dbversion":
 			if strings.HasPrefix(out, "err") {
 				fail("op %d (%s): returned %s", i, op, out)
 			}
